@@ -3,7 +3,7 @@
 cd /verif
 for d in /tmp/seed/out/C[0-9][0-9][a-z]; do
   id=$(basename $d)
-  [ -f $d/patch.diff ] && [ -f $d/demo.py ] || continue
+  [ -f $d/patch.diff ] && [ -f $d/demo.py ] && [ -f $d/notes.md ] || continue
   if [ ! -f /tmp/confirm/$id.result ] && [ ! -f /tmp/confirm/$id.started ]; then
     touch /tmp/confirm/$id.started
     (tools/confirm_seed.sh $id > /dev/null 2>&1 &)
